@@ -30,6 +30,7 @@ META = {
     "transparent containers of expressions.",
 }
 META["technique"] += '; loader twins (analysis loads the same sources on both paths); filtered comprehensions in expressions()/children()'
+META["technique"] += "; no return before the node's own expressions in the analysis visitor; returned lists as child contributions"
 
 EXPR_USE = {"evaluate", "evaluate_async", "map", "evaluate_args", "evaluate_args_async"}
 NODE_USE = {"evaluate", "evaluate_async", "render", "render_async", "map"}
@@ -409,7 +410,15 @@ def run(prog: Program, res: Result) -> None:  # noqa: PLR0912, PLR0915
             res.ok("C11.R4", f"{sa_mod.relpath}:{v.node.lineno} {v.qualname}", what_o, f"statement {idx_expr} before statement {idx_scope}")
         else:
             res.fail("C11.R4", file=sa_mod.relpath, line=v.node.lineno, qualname=v.qualname, construct=f"{v.qualname}: template_scope names enter the scope before the tag's own expressions are analysed", message=f"{v.qualname} adds the names a tag binds (node.template_scope()) to the scope before it classifies the tag's own expressions: the right-hand side of `{{% assign x = x | default: 'a' %}}` reads the global x at render time, but x is already local for the analyser and is not reported as a global", what=what_o)
+        # nothing leaves the visitor before the node's own expressions are analysed: the "this partial was seen already" return comes after
+        what_r = f"{outer}._visit analyses the node's own expressions on every path (no return before the loop over node.expressions())"
+        early_rets = [r_ for st in v.node.body[: (idx_expr if idx_expr is not None else 0)] for r_ in ast.walk(st) if isinstance(r_, ast.Return)]
+        if idx_expr is not None and not early_rets:
+            res.ok("C11.R4", f"{sa_mod.relpath}:{v.node.lineno} {v.qualname}", what_r, "no return among the statements before it")
+        else:
+            res.fail("C11.R4", file=sa_mod.relpath, line=(early_rets[0].lineno if early_rets else v.node.lineno), qualname=v.qualname, construct=f"{v.qualname}: returns before the node's own expressions are analysed", message=f"{v.qualname} can return before `for expr in node.expressions()`: a second `{{% include 'card', item: second %}}` of a partial already seen is cut off with its own arguments unanalysed, so `second` is looked up at render time and missing from variables / globals", what=what_r)
         # token classes that stand for a `{% … %}` tag that does something: every marker-carrying class except the output statement and comments
+
         tokmod = prog.mod("liquid2/token.py")
         tag_kinds = {c.name for c in tokmod.classes.values() if any(isinstance(s_, ast.AnnAssign) and isinstance(s_.target, ast.Name) and s_.target.id == "wc" for s_ in c.node.body)} - {"OutputToken", "CommentToken", "BlockCommentToken", "InlineCommentToken"}
         guards = {n_: dotted(f_.node.returns.slice) or "" for n_, f_ in tokmod.functions.items() if f_.node.returns is not None and isinstance(f_.node.returns, ast.Subscript) and (dotted(f_.node.returns.value) or "").endswith("TypeGuard")}
